@@ -60,6 +60,7 @@ type addrMode struct {
 
 type addrLayout struct {
 	Top, Sub, GitDir, GitFileDir, Worktree, Bare, Outside string
+	Private                                               string    // a git directory of its own HEAD only; objects, references, configuration, shallow marker: GIT_COMMON_DIR
 	EnvGraftFile                                          string    // set when the caller's environment names a graft file
 	Decoy                                                 string    // another repository (objects, references, refgroups of its own)
 	MainHead, WorktreeHead                                model.Oid // what HEAD denotes in the main and in the linked work tree
@@ -100,6 +101,9 @@ var addrModes = []addrMode{
 	// one to measure: nothing of the surrounding repository may show
 	{Name: "GIT_DIR-from-inside-another-repository", Dir: func(l *addrLayout) string { return l.Decoy },
 		Env: func(l *addrLayout) []string { return []string{"GIT_DIR=" + l.GitDir} }, GitDir: func(l *addrLayout) string { return l.GitDir }},
+	{Name: "GIT_DIR-private+GIT_COMMON_DIR", Dir: func(l *addrLayout) string { return l.Outside },
+		Env:    func(l *addrLayout) []string { return []string{"GIT_DIR=" + l.Private, "GIT_COMMON_DIR=" + l.GitDir} },
+		GitDir: func(l *addrLayout) string { return l.Private }},
 	{Name: "GIT_DIR-dot-from-gitdir", Dir: func(l *addrLayout) string { return l.GitDir },
 		Env: func(l *addrLayout) []string { return []string{"GIT_DIR=."} }, GitDir: func(l *addrLayout) string { return l.GitDir }},
 }
@@ -274,6 +278,17 @@ func buildLayout(base string, ac *addrCase) (*addrLayout, *gitrepo.Repo, error) 
 		if out, err := cmd.CombinedOutput(); err != nil {
 			return nil, nil, fmt.Errorf("git pack-refs: %v: %s", err, out)
 		}
+	}
+	// what `git worktree add` sets up with a `commondir` file, said with the environment instead (git-new-workdir
+	// style wrappers): a private git directory with HEAD and the references (git reads those from the git directory
+	// itself), while objects, configuration, info/grafts and the shallow marker are in the directory GIT_COMMON_DIR names
+	l.Private = filepath.Join(base, "private-gitdir")
+	os.MkdirAll(l.Private, 0o755)
+	if out, err := exec.Command("cp", "-R", filepath.Join(l.GitDir, "HEAD"), filepath.Join(l.GitDir, "refs"), l.Private+"/").CombinedOutput(); err != nil {
+		return nil, nil, fmt.Errorf("private git directory: %v: %s", err, out)
+	}
+	if pr, err := os.ReadFile(filepath.Join(l.GitDir, "packed-refs")); err == nil {
+		os.WriteFile(filepath.Join(l.Private, "packed-refs"), pr, 0o644)
 	}
 	// linked worktree (created by git itself)
 	l.Worktree = filepath.Join(base, "wt")
